@@ -127,6 +127,7 @@ type Result struct {
 // MaxImportSlots bounds placeholder growth in the reference itself.
 const MaxImportSlots = 1 << 22
 
+// On error the returned Result still holds the values resolved before it.
 // Resolve runs the reader-side context machine over raw top-level values (as
 // produced by reftext.Parse or refbin.DecodeRaw) and returns the user values
 // with every symbol resolved to text or marked unknown.
@@ -141,12 +142,12 @@ func Resolve(raw []*rm.Value, cat Catalog) (*Result, error) {
 		if v.Type == rm.Struct && !v.Null && len(v.Annots) > 0 {
 			first, err := resolveSym(v.Annots[0], ctx)
 			if err != nil {
-				return nil, err
+				return res, err
 			}
 			if first.HasText && first.Text == "$ion_symbol_table" {
 				nt, info, err := processLST(v, ctx, cat)
 				if err != nil {
-					return nil, err
+					return res, err
 				}
 				if info.Unsure {
 					res.Unsure = true
@@ -158,7 +159,7 @@ func Resolve(raw []*rm.Value, cat Catalog) (*Result, error) {
 		}
 		u, err := resolveValue(v, ctx)
 		if err != nil {
-			return nil, err
+			return res, err
 		}
 		res.Values = append(res.Values, u)
 		res.MaxIDs = append(res.MaxIDs, ctx.MaxID())
